@@ -130,7 +130,10 @@ type Failure struct {
 	Lines   []string // whole (shrunk) case as sent to the driver
 	Finding string   // id of the known finding class it belongs to, "" if none
 	Source  string   // Lua source of the failing program (program-level checks)
+	Sexp    string
 	Note    string
+	Ops     []string // the (shrunk) ops of the case, for replay
+	CallNo  int      // which runCases invocation of the property runner produced it
 }
 
 var driverPath = envOr("GLUADRV", verifRoot()+"/lean/.lake/build/bin/gluadrv")
